@@ -1,9 +1,10 @@
 import Driver.Ops.Resample
 import Driver.Ops.Npz
+import Driver.Ops.Config
 /-! registration point of the `discrete` area (C15, C17, C19): one handler for Driver/Main -/
 namespace Ops.Discrete
 
 def handle (toks : List String) : Option String :=
-  [Ops.Resample.handle, Ops.Npz.handle].findSome? (fun h => h toks)
+  [Ops.Resample.handle, Ops.Npz.handle, Ops.Config.handle].findSome? (fun h => h toks)
 
 end Ops.Discrete
